@@ -5,8 +5,9 @@
   Impl  = MongoModel.patch      (helpers.patch_datetime_awareness_in_document)
           MongoModel.makeAware  (helpers.make_datetime_timezone_aware_in_document)
           MongoModel.filterApplies (the matcher, C01)
-          MongoModel.readDoc / MongoModel.aggPipeline (what a reader is handed; what
-                                `Collection.aggregate` hands `process_pipeline`)
+          MongoModel.readDoc (what a reader is handed), MongoModel.aggPipeline / aggInput /
+                                aggResult (what `Collection.aggregate` hands `process_pipeline`,
+                                and what it hands the caller for each result)
           MongoModel.Expr.compareOp (the comparison operators of expressions, C04),
           MongoModel.Pipe.matchStage / aggregate (the pipeline, C03)
           — tied to /repo by the per-run correspondence of harness/props/c18.py.
@@ -32,10 +33,11 @@
                             `$unwind` / `$graphLookup` raised TypeError (6f8861a)
     aggregate_literal_raw   datetime literals in a pipeline outside `$match` were handed on as
                             written (d1da933; section 9, `unrepaired_literal_*`)
-  Known finding of the read side (section 9 says what the repaired code does for *written*
-  datetimes; a datetime *computed* by an expression is outside `aggPipeline`):
-    aggregate_computed_raw  `$dateFromParts` builds a naive datetime whatever the client's
-                            tz_aware, with its `millisecond` argument in the microsecond field
+    aggregate_computed_raw  a datetime computed in a pipeline (`$dateFromParts`) was naive also for
+                            a tz_aware=True client, whose stored datetimes the pipeline read aware:
+                            comparing the two raised TypeError, and the result came out naive
+                            (e05c961, with 8825a6b for the millisecond argument; section 9,
+                            `unrepaired_computed_*`)
   Scope limits: PEP 495 fold, tzinfo that is not a fixed whole-minute offset, bson.Timestamp.
 -/
 import Proofs.C18
@@ -422,33 +424,84 @@ theorem raw_clock_normal_iff (us : Int) (off : Option Int) :
 theorem unrepaired_raw_clock_not_normal : ¬ AllDates Normal (.date 1577836800123456 none) := by
   simp [AllDates, Normal]
 
-/-! ## 9. the aggregation pipeline: a datetime written anywhere in it
+/-! ## 9. the aggregation pipeline: datetimes written in it, read by it, computed by it
 
-`Collection.aggregate` prepares the pipeline before `process_pipeline` sees it (repair d1da933):
-`aggPipeline tz p = (if tz then makeAware else id) (patch p)`.  The statements below hold for the
-whole pipeline value, so for a datetime at every position in it: `$addFields` / `$project` /
-`$literal` values, `$group` keys and accumulator arguments, `$bucket` boundaries, `$facet`
-sub-pipelines, `$replaceRoot`, operands of expression operators, `$match`, before `$out`. -/
+`Collection.aggregate` (repairs d1da933, e05c961): `pipeline = patch pipeline` (`aggPipeline`); the
+input is the documents as stored (`aggInput`), the documents `$lookup` / `$graphLookup` fetch are
+patched: so every datetime inside `process_pipeline` is naive — stored, fetched, written, or
+computed (`$dateFromParts`, `$add` of a date); the client's `tz_aware` acts on the results only
+(`aggResult tz` = `makeAware` of every result document under `tz_aware=True`).  The statements on
+`aggPipeline` hold for the whole pipeline value, so for a datetime at every position in it:
+`$addFields` / `$project` / `$literal` values, `$group` keys and accumulator arguments, `$bucket`
+boundaries, `$facet` sub-pipelines, `$replaceRoot`, operands of expression operators, `$match`,
+before `$out`. -/
 
-/-- A written datetime is handed on exactly as a stored copy of it is read by this client. -/
-theorem pipeline_literal_as_stored_read (tz : Bool) (p : Val) :
-    aggPipeline tz p = readDoc tz (patch p) :=
-  Proofs.C18.aggPipeline_eq_readDoc tz p
+/-- A written datetime meets the stored ones in their own form. -/
+theorem pipeline_literal_as_stored (p : Val) : aggPipeline p = aggInput (patch p) :=
+  Proofs.C18.aggPipeline_eq_stored p
 
-/-- `reads_naive` for written datetimes: with `tz_aware=False` every datetime of the prepared
-    pipeline, at any depth, is naive with whole milliseconds. -/
-theorem reads_naive_literals (p : Val) : AllDates Normal (aggPipeline false p) :=
-  Proofs.C18.aggPipeline_form false p
+/-- Every datetime of the prepared pipeline, at any depth, is naive with whole milliseconds —
+    for every client. -/
+theorem pipeline_literals_normal (p : Val) : AllDates Normal (aggPipeline p) :=
+  Proofs.C18.aggPipeline_normal p
 
-/-- `reads_aware_everywhere` for written datetimes: with `tz_aware=True` every one is aware UTC,
-    and normalising the prepared pipeline gives the normal form of what was written. -/
-theorem reads_aware_literals (p : Val) :
-    AllDates AwareUtc (aggPipeline true p) ∧ patch (aggPipeline true p) = patch p :=
-  ⟨Proofs.C18.awareNormal_awareUtc _ (Proofs.C18.aggPipeline_form true p),
-   Proofs.C18.patch_aggPipeline true p⟩
+/-- Nothing but datetimes changes in the pipeline … -/
+theorem literal_shape (p : Val) : shape (aggPipeline p) = shape p :=
+  Proofs.C18.shape_aggPipeline p
 
-/-- Both settings at once, with the whole-millisecond part for `tz_aware=True` too: stored
-    documents as read … -/
+/-- … and each becomes the millisecond floor of the instant written, position by position. -/
+theorem literal_dates (p : Val) :
+    datesOf (aggPipeline p) = (datesOf p).map (fun d => (floorMs (dateUtc d.1 d.2), none)) :=
+  Proofs.C18.datesOf_aggPipeline p
+
+/-- At every depth: through any path into the pipeline value. -/
+theorem literal_depth (ps : List String) (p : Val) (u : Int) (o : Option Int)
+    (h : getByDotParts ps p = .ok (.date u o)) :
+    getByDotParts ps (aggPipeline p) = .ok (.date (floorMs (dateUtc u o)) none) :=
+  Proofs.C18.aggPipeline_depth ps p u o h
+
+/-- non-vacuity: a literal below `$addFields` / `$literal` inside a `$facet` sub-pipeline -/
+example : getByDotParts ["0", "$facet", "x", "0", "$addFields", "l", "$literal", "a", "1"]
+    (.arr [.doc [("$facet", .doc [("x", .arr [.doc [("$addFields", .doc [("l", .doc [("$literal",
+      .doc [("a", .arr [.null, .date 1577856600123456 (some 330)])])])])]])])]])
+    = .ok (.date 1577856600123456 (some 330)) := by
+  simp [getByDotParts, dget, pyInt?]
+
+theorem literal_depth_commutes (ps : List String) (p : Val) :
+    getByDotParts ps (aggPipeline p) = (getByDotParts ps p).map aggPipeline :=
+  Proofs.C18.getByDotParts_aggPipeline ps p
+
+/-- What `$out` stores (it inserts, so it normalises) and what `$match` queries with (it patches
+    its filter) is the prepared pipeline itself. -/
+theorem literal_stored_like_inserted (p : Val) : patch (aggPipeline p) = patch p :=
+  Proofs.C18.patch_aggPipeline p
+
+/-- Preparing twice is preparing once (a result fed into the next pipeline). -/
+theorem pipeline_prepare_idem (p : Val) : aggPipeline (aggPipeline p) = aggPipeline p :=
+  Proofs.C18.aggPipeline_idem p
+
+/-- `patch_eq_iff_sameMs` for pipelines: prepared alike iff same shape and same milliseconds. -/
+theorem pipeline_eq_iff_sameMs (p q : Val) : aggPipeline p = aggPipeline q ↔ SameMs p q :=
+  Proofs.C18.aggPipeline_eq_iff_sameMs p q
+
+/-! ### the results: what the caller reads -/
+
+/-- `reads_aware_everywhere` for aggregation results, with no hypothesis at all: under
+    `tz_aware=True` every datetime of a result, at any depth, is aware UTC — whether the pipeline
+    read it, fetched it, was given it or computed it. -/
+theorem reads_aware_results (r : Val) : AllDates AwareUtc (aggResult true r) :=
+  Proofs.C18.aggResult_aware r
+
+/-- `reads_naive` for aggregation results: a `tz_aware=False` client gets the values as the
+    pipeline has them — naive, since everything inside it is. -/
+theorem reads_naive_results (r : Val) (h : AllDates Naive r) : AllDates Naive (aggResult false r) :=
+  h
+
+example : AllDates Naive (.doc [("_id", .date 1577836800123000 none)]) := by
+  simp [AllDates, AllDatesF, Naive]
+
+/-- Both settings at once, with the whole-millisecond part: stored documents as `find` hands them
+    out … -/
 theorem reads_form (tz : Bool) {s : List Val} (h : DateInv s) {d : Val} (hd : d ∈ s) :
     AllDates (ReadForm tz) (readDoc tz d) :=
   Proofs.C18.readDoc_form tz d (h d hd)
@@ -462,121 +515,200 @@ example : DateInv [.doc [("a", .arr [.doc [("b", .date 1577836800123000 none)]])
   subst hd
   exact (Proofs.C18.allNormalB_iff _).1 (by decide)
 
-/-- … and written datetimes have one and the same form. -/
-theorem literal_form (tz : Bool) (p : Val) : AllDates (ReadForm tz) (aggPipeline tz p) :=
-  Proofs.C18.aggPipeline_form tz p
+/-- … and any value of an aggregation result whose datetimes are normal — stored ones passed on,
+    written ones, fetched ones, and computed ones with whole milliseconds — have one and the same
+    form … -/
+theorem result_form (tz : Bool) (r : Val) (h : AllDates Normal r) :
+    AllDates (ReadForm tz) (aggResult tz r) :=
+  Proofs.C18.aggResult_form tz r h
 
-/-- Nothing but datetimes changes in the pipeline … -/
-theorem literal_shape (tz : Bool) (p : Val) : shape (aggPipeline tz p) = shape p :=
-  Proofs.C18.shape_aggPipeline tz p
+/-- non-vacuity: a `$group` document whose `_id` was computed and which collected a stored value -/
+example : AllDates Normal (.doc [("_id", .date 1577836800123000 none),
+    ("p", .arr [.doc [("f", .date (-1000) none)]])]) :=
+  (Proofs.C18.allNormalB_iff _).1 (by decide)
 
-/-- … and each becomes the millisecond floor of the instant written, position by position. -/
-theorem literal_dates (tz : Bool) (p : Val) :
-    datesOf (aggPipeline tz p)
-      = (datesOf p).map (fun d => (floorMs (dateUtc d.1 d.2), if tz then some 0 else none)) :=
-  Proofs.C18.datesOf_aggPipeline tz p
+/-- … with nothing lost: normalising what the caller got gives the value the pipeline computed. -/
+theorem result_roundtrip (tz : Bool) (r : Val) (h : AllDates Normal r) :
+    patch (aggResult tz r) = r :=
+  Proofs.C18.patch_aggResult tz r h
 
-/-- At every depth: through any path into the pipeline value. -/
-theorem literal_depth (tz : Bool) (ps : List String) (p : Val) (u : Int) (o : Option Int)
-    (h : getByDotParts ps p = .ok (.date u o)) :
-    getByDotParts ps (aggPipeline tz p)
-      = .ok (.date (floorMs (dateUtc u o)) (if tz then some 0 else none)) :=
-  Proofs.C18.aggPipeline_depth tz ps p u o h
+example : AllDates Normal (.arr [.date 0 none]) := (Proofs.C18.allNormalB_iff _).1 (by decide)
 
-/-- non-vacuity: a literal below `$addFields` / `$literal` inside a `$facet` sub-pipeline -/
-example : getByDotParts ["0", "$facet", "x", "0", "$addFields", "l", "$literal", "a", "1"]
-    (.arr [.doc [("$facet", .doc [("x", .arr [.doc [("$addFields", .doc [("l", .doc [("$literal",
-      .doc [("a", .arr [.null, .date 1577856600123456 (some 330)])])])])]])])]])
-    = .ok (.date 1577856600123456 (some 330)) := by
+/-- In particular a written datetime that the pipeline passes on comes out as a stored copy of it
+    is read by this client. -/
+theorem literal_form (tz : Bool) (p : Val) :
+    aggResult tz (aggPipeline p) = readDoc tz (patch p) ∧
+    AllDates (ReadForm tz) (aggResult tz (aggPipeline p)) :=
+  ⟨rfl, Proofs.C18.aggResult_aggPipeline_form tz p⟩
+
+/-- Nothing but datetimes changes in a result, … -/
+theorem result_shape (tz : Bool) (r : Val) : shape (aggResult tz r) = shape r :=
+  Proofs.C18.shape_aggResult tz r
+
+/-- … every naive datetime keeps its wall clock (aware UTC under `tz_aware=True`), … -/
+theorem result_dates (tz : Bool) (r : Val) (h : AllDates Naive r) :
+    datesOf (aggResult tz r) = (datesOf r).map (fun d => (d.1, if tz then some 0 else none)) :=
+  Proofs.C18.datesOf_aggResult tz r h
+
+/-- … so its instant, … -/
+theorem result_same_instant (tz : Bool) (r : Val) (h : AllDates Naive r) :
+    (datesOf (aggResult tz r)).map (fun d => dateUtc d.1 d.2)
+      = (datesOf r).map (fun d => dateUtc d.1 d.2) :=
+  Proofs.C18.aggResult_same_instant tz r h
+
+example : AllDates Naive (.doc [("x", .arr [.date 1577836800000123 none])]) := by
+  simp [AllDates, AllDatesF, AllDatesL, Naive]
+
+/-- … at every depth (`$group` ids, `$facet` branches, pushed arrays). -/
+theorem result_depth (tz : Bool) (ps : List String) (r : Val) (u : Int)
+    (h : getByDotParts ps r = .ok (.date u none)) :
+    getByDotParts ps (aggResult tz r) = .ok (.date u (if tz then some 0 else none)) :=
+  Proofs.C18.aggResult_depth tz ps r u h
+
+example : getByDotParts ["x", "0", "_id", "d"]
+    (.doc [("x", .arr [.doc [("_id", .doc [("d", .date 1577836800123000 none)])]])])
+    = .ok (.date 1577836800123000 none) := by
   simp [getByDotParts, dget, pyInt?]
 
-theorem literal_depth_commutes (tz : Bool) (ps : List String) (p : Val) :
-    getByDotParts ps (aggPipeline tz p) = (getByDotParts ps p).map (aggPipeline tz) :=
-  Proofs.C18.getByDotParts_aggPipeline tz ps p
+/-! ### `Collection.aggregate` as a whole (`aggregateTz`: prepare the pipeline, run
+`process_pipeline` of MongoModel/Pipeline.lean over the stored collections, convert the results) -/
 
-/-- What `$out` stores (it inserts, so it normalises) and what `$match` queries with (it patches
-    its filter) is the normal form of the pipeline as written, under both settings. -/
-theorem literal_stored_like_inserted (tz : Bool) (p : Val) : patch (aggPipeline tz p) = patch p :=
-  Proofs.C18.patch_aggPipeline tz p
+/-- **`tz_aware` acts on the form of the results and on nothing else.** The aggregation of a
+    `tz_aware=True` client fails exactly when the other client's does, and otherwise is
+    `makeAware` of it, document by document: the same documents selected, grouped and joined, the
+    same values compared and computed. -/
+theorem aggregate_tz_only_rebuilds_results (db : Pipe.Db) (coll : String) (p : Val) :
+    Proofs.C18.aggregateTz true db coll p
+      = (Proofs.C18.aggregateTz false db coll p).map (List.map makeAware) :=
+  Proofs.C18.aggregateTz_true db coll p
 
-/-- Preparing twice is preparing once (a result fed into the next pipeline). -/
-theorem pipeline_prepare_idem (tz : Bool) (p : Val) :
-    aggPipeline tz (aggPipeline tz p) = aggPipeline tz p :=
-  Proofs.C18.aggPipeline_idem tz p
+theorem aggregate_naive_client (db : Pipe.Db) (coll : String) (p : Val) :
+    Proofs.C18.aggregateTz false db coll p = Pipe.aggregate db coll (patch p) :=
+  Proofs.C18.aggregateTz_false db coll p
 
-/-- `patch_eq_iff_sameMs` for pipelines: prepared alike iff same shape and same milliseconds. -/
-theorem pipeline_eq_iff_sameMs (tz : Bool) (p q : Val) :
-    aggPipeline tz p = aggPipeline tz q ↔ SameMs p q :=
-  Proofs.C18.aggPipeline_eq_iff_sameMs tz p q
+/-- Every datetime a `tz_aware=True` client finds in the results of any aggregation is aware
+    UTC. -/
+theorem aggregate_results_aware (db : Pipe.Db) (coll : String) (p : Val) (rs : List Val)
+    (h : Proofs.C18.aggregateTz true db coll p = .ok rs) : ∀ r ∈ rs, AllDates AwareUtc r :=
+  Proofs.C18.aggregateTz_true_aware db coll p rs h
+
+/-- non-vacuity: the stored document read through the empty pipeline -/
+example : Proofs.C18.aggregateTz true
+    ⟨[("c", [.doc [("_id", .int 1), ("f", .date 1577836800123000 none)]])]⟩ "c" (.arr [])
+    = .ok [.doc [("_id", .int 1), ("f", .date 1577836800123000 (some 0))]] := by
+  rfl
+
+/-- Results whose datetimes the pipeline left or made normal reach either client in its read
+    form. -/
+theorem aggregate_results_form (tz : Bool) (db : Pipe.Db) (coll : String) (p : Val)
+    (xs : List Val) (h : Pipe.aggregate db coll (aggPipeline p) = .ok xs)
+    (hn : ∀ x ∈ xs, AllDates Normal x) :
+    ∃ rs, Proofs.C18.aggregateTz tz db coll p = .ok rs ∧ ∀ r ∈ rs, AllDates (ReadForm tz) r :=
+  Proofs.C18.aggregateTz_form tz db coll p xs h hn
 
 /-- `equivalent_operand_finds` for the aggregate-literal positions: whatever stage the datetime
     is written in and however deep, writing it in another way that denotes the same millisecond
-    gives the same aggregation (`aggregateTz` = read the collections as this client does, prepare
-    the pipeline, run `process_pipeline`). -/
+    gives the same aggregation. -/
 theorem equivalent_pipeline_aggregates (tz : Bool) (db : Pipe.Db) (coll : String) (p q : Val)
     (h : SameMs p q) :
     Proofs.C18.aggregateTz tz db coll p = Proofs.C18.aggregateTz tz db coll q :=
   Proofs.C18.equivalent_pipeline_aggregates tz db coll p q h
 
-/-- non-vacuity: the same millisecond written two ways as a `$group` key inside an `$addFields` -/
+/-- non-vacuity: the same millisecond written two ways as a `$group` key -/
 example : SameMs
     (.arr [.doc [("$group", .doc [("_id", .doc [("d", .date 1577856600123456 (some 330))])])]])
     (.arr [.doc [("$group", .doc [("_id", .doc [("d", .date 1577836800123000 none)])])]]) :=
   (patch_eq_iff_sameMs _ _).1 (by simp [patch, patchFields, patchList, floorMs, dateUtc])
 
 /-- The same for anything at all that is computed from the prepared pipeline. -/
-theorem equivalent_pipeline_any {α : Type} (run : Val → α) (tz : Bool) (p q : Val)
-    (h : SameMs p q) : run (aggPipeline tz p) = run (aggPipeline tz q) :=
-  Proofs.C18.equivalent_pipeline_any run tz p q h
+theorem equivalent_pipeline_any {α : Type} (run : Val → α) (p q : Val)
+    (h : SameMs p q) : run (aggPipeline p) = run (aggPipeline q) :=
+  Proofs.C18.equivalent_pipeline_any run p q h
 
 example : SameMs (.arr [.doc [("$out", .str "c")], .date (-1) none])
                  (.arr [.doc [("$out", .str "c")], .date (-1000) (some 0)]) :=
   (patch_eq_iff_sameMs _ _).1 (by simp [patch, patchFields, patchList, floorMs, dateUtc])
 
-/-- **A stored field against a written datetime, in an expression.**  `{op: ['$f', b]}` where
-    `f` holds the stored form of `a`: the comparison of the two milliseconds — no error, and the
-    same answer for `tz_aware` False and True. -/
-theorem compare_field_with_literal (tz : Bool) (op : String) (hop : op ∈ Proofs.C18.dateCmpOps)
+/-! ### comparisons inside the pipeline -/
+
+/-- **Any two datetimes the pipeline can meet.**  They are naive, and an expression operator
+    compares two naive datetimes without error, by their instants — whichever of them was
+    stored, fetched, written or computed. -/
+theorem compare_naive_dates (op : String) (hop : op ∈ Proofs.C18.dateCmpOps) (x y : Int) :
+    Expr.compareOp op (.date x none) (.date y none) = .ok (.bool (Proofs.C18.cmpMs op x y)) :=
+  Proofs.C18.compare_naive_dates op hop x y
+
+example : "$lt" ∈ Proofs.C18.dateCmpOps := by decide
+
+/-- **A stored field against a written datetime.**  `{op: ['$f', b]}` where `f` holds the stored
+    form of `a`: the comparison of the two milliseconds — no error, and (the statement has no
+    `tz`) one answer for every client. -/
+theorem compare_field_with_literal (op : String) (hop : op ∈ Proofs.C18.dateCmpOps)
     (u : Int) (o : Option Int) (u' : Int) (o' : Option Int) :
-    Expr.compareOp op (readDoc tz (patch (.date u o))) (aggPipeline tz (.date u' o'))
+    Expr.compareOp op (aggInput (patch (.date u o))) (aggPipeline (.date u' o'))
       = .ok (.bool (Proofs.C18.cmpMs op (msOf u o) (msOf u' o'))) :=
-  Proofs.C18.compare_field_with_literal tz op hop u o u' o'
+  Proofs.C18.compare_field_with_literal op hop u o u' o'
 
 example : "$gte" ∈ Proofs.C18.dateCmpOps := by decide
 
 /-- The written datetime on the left: `{op: [b, '$f']}`. -/
-theorem compare_literal_with_field (tz : Bool) (op : String) (hop : op ∈ Proofs.C18.dateCmpOps)
+theorem compare_literal_with_field (op : String) (hop : op ∈ Proofs.C18.dateCmpOps)
     (u : Int) (o : Option Int) (u' : Int) (o' : Option Int) :
-    Expr.compareOp op (aggPipeline tz (.date u' o')) (readDoc tz (patch (.date u o)))
+    Expr.compareOp op (aggPipeline (.date u' o')) (aggInput (patch (.date u o)))
       = .ok (.bool (Proofs.C18.cmpMs op (msOf u' o') (msOf u o))) :=
-  Proofs.C18.compare_literal_with_field tz op hop u o u' o'
+  Proofs.C18.compare_literal_with_field op hop u o u' o'
 
 example : "$ne" ∈ Proofs.C18.dateCmpOps := by decide
 
+/-- **A stored field against a computed datetime** (`$dateFromParts`, `$add` of a date and a
+    number: naive, `m` µs after the epoch): no error, the stored instant against `m` … -/
+theorem compare_field_with_computed (op : String) (hop : op ∈ Proofs.C18.dateCmpOps)
+    (u : Int) (o : Option Int) (m : Int) :
+    Expr.compareOp op (aggInput (patch (.date u o))) (.date m none)
+      = .ok (.bool (Proofs.C18.cmpMs op (floorMs (dateUtc u o)) m)) :=
+  Proofs.C18.compare_field_with_computed op hop u o m
+
+example : "$lte" ∈ Proofs.C18.dateCmpOps := by decide
+
+/-- … which for a computed datetime of whole milliseconds is the comparison of milliseconds. -/
+theorem compare_field_with_computed_ms (op : String) (hop : op ∈ Proofs.C18.dateCmpOps)
+    (u : Int) (o : Option Int) (ms : Int) :
+    Expr.compareOp op (aggInput (patch (.date u o))) (.date (ms * 1000) none)
+      = .ok (.bool (Proofs.C18.cmpMs op (msOf u o) ms)) :=
+  Proofs.C18.compare_field_with_computed_ms op hop u o ms
+
+example : "$gt" ∈ Proofs.C18.dateCmpOps := by decide
+
+/-- A written datetime against a computed one. -/
+theorem compare_literal_with_computed (op : String) (hop : op ∈ Proofs.C18.dateCmpOps)
+    (u : Int) (o : Option Int) (m : Int) :
+    Expr.compareOp op (aggPipeline (.date u o)) (.date m none)
+      = .ok (.bool (Proofs.C18.cmpMs op (floorMs (dateUtc u o)) m)) :=
+  Proofs.C18.compare_literal_with_computed op hop u o m
+
+example : "$eq" ∈ Proofs.C18.dateCmpOps := by decide
+
 /-- In particular `$eq` says "same millisecond". -/
-theorem eq_field_with_literal_iff (tz : Bool) (u : Int) (o : Option Int) (u' : Int)
-    (o' : Option Int) :
-    Expr.compareOp "$eq" (readDoc tz (patch (.date u o))) (aggPipeline tz (.date u' o'))
+theorem eq_field_with_literal_iff (u : Int) (o : Option Int) (u' : Int) (o' : Option Int) :
+    Expr.compareOp "$eq" (aggInput (patch (.date u o))) (aggPipeline (.date u' o'))
       = .ok (.bool true) ↔ sameMillisecond (.date u o) (.date u' o') := by
-  rw [compare_field_with_literal tz "$eq" (by decide)]
+  rw [compare_field_with_literal "$eq" (by decide)]
   simp [Proofs.C18.cmpMs, sameMillisecond]
 
 /-- Equivalent written datetimes compare alike against any value. -/
-theorem equivalent_literal_compares (tz : Bool) (op : String) (x a b : Val)
-    (h : sameMillisecond a b) :
-    Expr.compareOp op x (aggPipeline tz a) = Expr.compareOp op x (aggPipeline tz b) :=
-  Proofs.C18.compare_equivalent_literals tz op x a b h
+theorem equivalent_literal_compares (op : String) (x a b : Val) (h : sameMillisecond a b) :
+    Expr.compareOp op x (aggPipeline a) = Expr.compareOp op x (aggPipeline b) :=
+  Proofs.C18.compare_equivalent_literals op x a b h
 
 example : sameMillisecond (.date (1577856600123456) (some 330)) (.date 1577836800123999 none) := by
   simp [sameMillisecond, msOf, dateUtc]
 
-/-- **`$match` inside `aggregate`, both settings.**  On the documents as this client reads them,
-    with the pipeline prepared, the stage selects exactly the documents it selects from the
-    stored ones with the filter as written (and raises on the same). -/
-theorem match_stage_under_tz (tz : Bool) (f : Val) (docs : List Val) (h : DateInv docs) :
-    Pipe.matchStage (aggPipeline tz f) (docs.map (readDoc tz))
-      = (Pipe.matchStage f docs).map (List.map (readDoc tz)) :=
-  Proofs.C18.matchStage_under_tz tz f docs h
+/-- **`$match` inside `aggregate`.**  On the stored documents — the input of the pipeline for
+    every client — the stage selects what `find` selects with the filter as written (and raises on
+    the same). -/
+theorem match_stage_eq_find (f : Val) (docs : List Val) (h : DateInv docs) :
+    Pipe.matchStage (aggPipeline f) docs = Pipe.findDocs f docs :=
+  Proofs.C18.matchStage_eq_find f docs h
 
 example : DateInv [.doc [("_id", .int 1), ("f", .date 1577836800123000 none)]] := by
   intro d hd
@@ -586,7 +718,8 @@ example : DateInv [.doc [("_id", .int 1), ("f", .date 1577836800123000 none)]] :
 
 /-! ### before the repair d1da933 (witness of the fixed finding `aggregate_literal_raw`)
 
-`aggPipelineUnrepaired tz p = p`: the pipeline went on as written. -/
+`aggPipelineUnrepaired tz p = p`: the pipeline went on as written; the input was read through
+`find()` (`aggInputUnrepaired tz = readDoc tz`). -/
 
 /-- The literal of the recorded witness has neither read form … -/
 theorem unrepaired_literal_form (tz : Bool) :
@@ -595,14 +728,31 @@ theorem unrepaired_literal_form (tz : Bool) :
 
 /-- … under `tz_aware=True` a naive literal could not be compared with a field at all … -/
 theorem unrepaired_literal_compare_raises :
-    Expr.compareOp "$gt" (readDoc true (patch (.date 1577836800123000 none)))
+    Expr.compareOp "$gt" (aggInputUnrepaired true (patch (.date 1577836800123000 none)))
         (aggPipelineUnrepaired true (.date 1577836800123999 none)) = .error .typeErr :=
   Proofs.C18.unrepaired_compare_raises
 
 /-- … and under `tz_aware=False` `$eq` answered "different" for the very datetime stored. -/
 theorem unrepaired_literal_eq_wrong :
-    Expr.compareOp "$eq" (readDoc false (patch (.date 1577856600123456 (some 330))))
+    Expr.compareOp "$eq" (aggInputUnrepaired false (patch (.date 1577856600123456 (some 330))))
         (aggPipelineUnrepaired false (.date 1577856600123456 (some 330))) = .ok (.bool false) :=
   Proofs.C18.unrepaired_eq_wrong
+
+/-! ### before the repair e05c961 (witness of the fixed finding `aggregate_computed_raw`)
+
+The input was still read through `find()`, the results were handed out as computed
+(`aggResultUnrepaired tz r = r`). -/
+
+/-- Under `tz_aware=True` the datetime `$dateFromParts` computes for {year: 2020, millisecond: 123}
+    could not be compared with the stored 2021-01-01 … -/
+theorem unrepaired_computed_compare_raises :
+    Expr.compareOp "$lt" (.date 1577836800123000 none)
+        (aggInputUnrepaired true (patch (.date 1609459200000000 none))) = .error .typeErr :=
+  Proofs.C18.unrepaired_computed_compare_raises
+
+/-- … and reached that client naive. -/
+theorem unrepaired_computed_form :
+    ¬ AllDates (ReadForm true) (aggResultUnrepaired true (.date 1577836800123000 none)) :=
+  Proofs.C18.unrepaired_computed_form
 
 end MongoModel.Props.C18
